@@ -107,10 +107,17 @@ def rule_edges(ctx):
         fe = next((n for n in H.walk(h["body"]) if H.kind(n) == "MethodCall" and n["name"] == "for_each"), None)
         recv = A.sexpr(fe["recv"], env) if fe else "(no for_each)"
         adapters = [x["name"] for x in H.walk(fe["recv"]) if H.kind(x) == "MethodCall"] if fe else []
-        adds = [A.sexpr(n, env) for n in H.walk(h["body"]) if H.kind(n) == "MethodCall" and (n.get("fn") or "").endswith("DepGraph::<Id>::add")]
-        ok = recv == "(core::iter::traits::iterator::Iterator::filter (. $P1 under) (closure (Eq (. $binding owner) (. $P2 owner))))" \
+        cenv = A.ArmEnv()
+        cenv.strip = True
+        cenv.names = dict(env.names)
+        if fe is not None:
+            clo = H.peel(fe["args"][0])
+            for l, pth in A.pat_paths(clo["params"][0]).items():
+                cenv.names[l] = "$site"
+        adds = [A.sexpr(n, cenv) for n in H.walk(h["body"]) if H.kind(n) == "MethodCall" and (n.get("fn") or "").endswith("DepGraph::<Id>::add")]
+        ok = recv == "(core::iter::traits::iterator::Iterator::filter (. $P1 under) (closure (Eq (. $c0.0 owner) (. $P2 owner))))" \
             and sorted(adapters) == ["copied", "filter", "iter"] \
-            and adds == ["(zydeco_utils::graph::DepGraph::<Id>::add ([] (. $P0 block_deps) (. $binding owner)) (. $binding id) (array (. $P2 id)))"]
+            and adds == ["(zydeco_utils::graph::DepGraph::<Id>::add ([] (. $P0 block_deps) (. $site owner)) (. $site id) (array (. $P2 id)))"]
         ctx.check(ok, rule, "add_dependency", "add_dependency iterates %s (adapters %s) and records %s; expected every site of `local.under` "
                   "with the dependency's owner to record block_deps[owner].add(site.id, [dependency.id])" % (recv[:140], adapters, adds),
                   facts.bodies()[fn]["loc"], detail={"over": "local.under filtered by owner", "records": "block_deps[owner].add(site.id, [dependency.id])"})
@@ -230,23 +237,24 @@ def rule_schedule(ctx):
     keyed = [n for n in sorts if any(c.endswith("::source_order") for _, c in H.calls(n["args"][0]))]
     ctx.check(len(keyed) == 1, rule, "from_bindings:member-order", "from_bindings does not sort the members of a group by source_order "
               "(sorts: %s)" % [A.sexpr(n, env)[:80] for n in sorts], loc, detail={"sort_key": "bindings[id].source_order()"})
-    rec = None
-    for n in H.walk(h["body"]):
-        if H.kind(n) == "Let" and H.kind(n["pat"]) == "Bind" and n["pat"]["name"] == "recursive":
-            rec = n["init"]
-    if rec is None:
-        ctx.anchor_lost(rule, "from_bindings: `recursive` classification not found")
+    aenv = A.ArmEnv()
+    aenv.strip = True
+    aenv.bind_params(h)
+    aenv.absorb(h["body"])
+    iff = next((n for n in H.walk(h["body"]) if H.kind(n) == "If" and H.path_local(n["c"]) and "ContextNode::Recursive" in A.sexpr(n["t"], aenv)), None)
+    if iff is None:
+        ctx.anchor_lost(rule, "from_bindings: `if recursive { ContextNode::Recursive(..) }` not found")
     else:
-        s = A.sexpr(rec, env)
-        ok = s.startswith("(Or (Gt (alloc::vec::Vec::<T, A>::len ") and " 1) (core::option::Option::<T>::is_some_and (core::slice::<impl [T]>::first " in s \
-            and "DepGraph::<Id>::query $P2 $id) (closure (Eq $dep $id))" in s
+        s = aenv.names.get(H.path_local(iff["c"])[0], "?")
+        m = re.match(r"^\(Or \(Gt \(alloc::vec::Vec::<T, A>::len (?P<ids>\(.*\))\) 1\) \(core::option::Option::<T>::is_some_and \(core::slice::<impl \[T\]>::first (?P<ids2>\(.*\))\) "
+                     r"\(closure \(core::iter::traits::iterator::Iterator::any \(zydeco_utils::graph::DepGraph::<Id>::query \$P2 (?P<id>\$c\d+\.0)\) "
+                     r"\(closure \(Eq \(each \(zydeco_utils::graph::DepGraph::<Id>::query \$P2 (?P=id)\)\) (?P=id)\)\)\)\)\)\)$", s)
+        ok = m is not None and m.group("ids") == m.group("ids2")
         ctx.check(ok, rule, "from_bindings:recursive", "a group is classified recursive by %s; expected `ids.len() > 1 || dependencies.query(id)"
-                  ".any(|dep| dep == id)`" % s[:200], loc, detail={"recursive_iff": "len > 1 or self edge"})
-    # node variant follows the classification
-    iff = next((n for n in H.walk(h["body"]) if H.kind(n) == "If" and H.path_local(n["c"]) and "Recursive" in A.sexpr(n["t"], env)), None)
-    ctx.check(iff is not None and "Acyclic" in A.sexpr(iff["e"], env), rule, "from_bindings:node-kind",
-              "from_bindings no longer builds ContextNode::Recursive for recursive groups and ::Acyclic otherwise", loc,
-              detail={"if_recursive": "Recursive(members)", "else": "Acyclic(first member)"})
+                  ".any(|dep| dep == id)` for the first member" % s[:260], loc, detail={"recursive_iff": "len > 1 or self edge"})
+        ctx.check("ContextNode::Acyclic" in A.sexpr(iff["e"], aenv), rule, "from_bindings:node-kind",
+                  "from_bindings no longer builds ContextNode::Recursive for recursive groups and ::Acyclic otherwise", loc,
+                  detail={"if_recursive": "Recursive(members)", "else": "Acyclic(first member)"})
     fn = ARENA + "ready"
     h = ctx.need_hir(rule, fn)
     sorts = [n for n in H.walk(h["body"]) if H.kind(n) == "MethodCall" and n["name"].startswith("sort")]
